@@ -74,6 +74,38 @@ for d in sorted(glob.glob(V + '/seeded/*/')):
     out.append(f"| {sid} | {summ}… | {needs}… | {ok} | {st}: {'; '.join('`%s`' % o for o in obls[:2])} |")
 out.append('')
 
+# behaviour-preserving refactors (must stay quiet)
+rr = V + '/selftest/refactor-results.txt'
+if os.path.exists(rr):
+    per = {}
+    for l in open(rr):
+        m = re.match(r'^(QUIET|ALARM\(\d+\))\s+(R\d-\d)\s+prop=(C\d\d)(.*)$', l.strip())
+        if m:
+            per.setdefault(m.group(2), []).append((m.group(1), m.group(3), m.group(4)))
+    out.append('### 0.12 Behaviour-preserving refactors: checks must stay quiet (generated from selftest/refactor-results.txt)')
+    out.append('')
+    out.append('Four sub-agents (one per group of files, no access to /verif) each wrote six small refactors that keep every observable '
+               'behaviour (extract/inline helper, rename locals, early return, merged conditions, equivalent library call, temporaries). '
+               '`selftest/refactors.sh` applies each to a scratch copy and runs the checks of the properties whose contracts live in the touched package. '
+               'First run: 22 of 24 quiet; the two alarms were both pure renames of local variables that contracts mention '
+               '(LoadLog `sth`/`c1`, cleanDir `name`/`t`/`i`). Since then the engine compares each function under contract with its committed '
+               'version (`git show HEAD:file`): when the working-tree declaration is an alpha-renaming of it (object-wise, so shadowed variables are kept apart), '
+               'the renaming is applied to the contract\'s identifiers, `x__k` ordinals, loop anchors and call filters before binding. '
+               'Anything that is not a pure renaming leaves the contract untouched.')
+    out.append('')
+    out.append('| id | change (agent\'s note) | checks run | result |')
+    out.append('|---|---|---|---|')
+    for rid in sorted(per):
+        note = ''
+        try:
+            note = re.sub(r'\s+', ' ', open(f'{V}/selftest/refactors/{rid}/note.txt').read())[:230].replace('|', '/')
+        except Exception:
+            pass
+        rs = per[rid]
+        bad = [f"{p}: {x.strip()[:80]}" for (st, p, x) in rs if st != 'QUIET']
+        out.append(f"| {rid} | {note} | {' '.join(p for (_, p, _) in rs)} | {'all quiet' if not bad else '; '.join(bad)} |")
+    out.append('')
+
 text = '\n'.join(out)
 d = open(V + '/DESIGN.md').read()
 B, E = '<!-- ASBUILT-BEGIN -->', '<!-- ASBUILT-END -->'
